@@ -497,6 +497,40 @@ func checkC19(p *Prog, r *Report) {
 	} else {
 		r.Ob("class-table", "-", false, "class table routine not found")
 	}
+	// every layer gets its horizon's density: the store is a statement of the layer loop's own body and nothing
+	// before it in that body can skip the rest of the iteration (continue / break / goto)
+	if ifi := p.Funcs["hermes.Input"]; ifi != nil {
+		iinfo := ifi.Pkg.TypesInfo
+		okBD, detBD := false, "store of the layer bulk density not found in a loop of the input routine"
+		ast.Inspect(ifi.Decl.Body, func(n ast.Node) bool {
+			fs, ok := n.(*ast.ForStmt)
+			if !ok {
+				return true
+			}
+			for i, st := range fs.Body.List {
+				as, ok := st.(*ast.AssignStmt)
+				if !ok || len(as.Lhs) != 1 || fieldOf(iinfo, as.Lhs[0]) != "BD" {
+					continue
+				}
+				skips := ""
+				for _, prev := range fs.Body.List[:i] {
+					ast.Inspect(prev, func(m ast.Node) bool {
+						switch t := m.(type) {
+						case *ast.ForStmt, *ast.RangeStmt:
+							return false // a break/continue in an inner loop concerns that loop
+						case *ast.BranchStmt:
+							skips += t.Tok.String() + " at " + p.Pos(t.Pos()) + "; "
+						}
+						return true
+					})
+				}
+				okBD = skips == ""
+				detBD = "BD store is a statement of the layer loop body; statements before it that can skip it: " + orStr(skips, "none")
+			}
+			return true
+		})
+		r.Ob("BD-every-layer", p.Pos(ifi.Decl.Pos()), okBD, detBD)
+	}
 	r.Ob("class-constants", "-", okConst && nconst >= 5, fmt.Sprintf("%d bulk-density class constants %v, all inside [0.8, 2.2]: %v (measured values from the soil file are assumed admissible)", nconst, vals, okConst))
 	// the measured bulk density of the csv soil layout is the column of that exact name (shared with C13.headers)
 	c13Headers(p, r, "C19.O5b")
@@ -535,6 +569,10 @@ func checkC19(p *Prog, r *Report) {
 		}
 	}
 	r.Assume = append(r.Assume, "bulk density ∈ [0.8, 2.2] g/cm³, water content ∈ [0, 1 − BD/2.65], humus fraction ∈ [0, 0.15] (organic carbon 0–6 % × 1.72/100 ≤ 0.1032)", "the maximum principle argument is in real arithmetic; floating-point round-off is outside the claim")
+	// the radiation that raises the surface boundary is the normalised one: the sentinel of a missing radiation value
+	// must have been replaced BEFORE the unit transformation halves it (a halved sentinel no longer equals the
+	// sentinel and stays in the series: 999.9 → 499.95 "MJ/m²") — shared with C04.R3
+	c04Pipeline(p, r, "C19.O7")
 }
 
 func uniq(ss []string) []string {
